@@ -151,17 +151,20 @@ Definition span_less (a b : span) : option bool :=
                end
        end.
 
-Definition sort_merge_res (c : cfg) (b : tbatch) : option tbatch :=
-  match sort_go (fun x y => is_lt (cmp_res_id c (rsp_res x) (rsp_res y))) b with
+(* the comparison functions are arguments: the theorems hold for any comparison whose Eq means
+   equal identity; the converter uses cmp_res_id / cmp_scope_id (below) *)
+Definition sort_merge_res (cmpR : res_id -> res_id -> option comparison) (b : tbatch) : option tbatch :=
+  match sort_go (fun x y => is_lt (cmpR (rsp_res x) (rsp_res y))) b with
   | Some l =>
-    merge_adj (fun x y => cmp_res_id c (rsp_res x) (rsp_res y))
+    merge_adj (fun x y => cmpR (rsp_res x) (rsp_res y))
               (fun x y => mkRS (rsp_res x) (rsp_scopes x ++ rsp_scopes y)) l
   | None => None
   end.
-Definition sort_merge_scopes (c : cfg) (l : list scope_spans) : option (list scope_spans) :=
-  match sort_go (fun x y => is_lt (cmp_scope_id c (ss_scope x) (ss_scope y))) l with
+Definition sort_merge_scopes (cmpS : scope_id -> scope_id -> option comparison) (l : list scope_spans)
+  : option (list scope_spans) :=
+  match sort_go (fun x y => is_lt (cmpS (ss_scope x) (ss_scope y))) l with
   | Some l' =>
-    merge_adj (fun x y => cmp_scope_id c (ss_scope x) (ss_scope y))
+    merge_adj (fun x y => cmpS (ss_scope x) (ss_scope y))
               (fun x y => mkSS (ss_scope x) (ss_spans x ++ ss_spans y)) l'
   | None => None
   end.
@@ -214,28 +217,32 @@ Definition write_scope_spans (c : cfg) (sorted : bool) (w : srecord) (ss : scope
     (mkSRec (sr_resource w) (conv_scope c (sr_scope w) (ss_scope ss)) (sr_span w))
     (if sorted then sort_spans (ss_spans ss) else ss_spans ss).
 
-Definition write_res_spans (c : cfg) (sorted : bool) (w : srecord) (rs : res_spans)
-  : res (list srecord * srecord) :=
+Definition write_res_spans (cmpS : scope_id -> scope_id -> option comparison) (c : cfg) (sorted : bool)
+           (w : srecord) (rs : res_spans) : res (list srecord * srecord) :=
   let w1 := mkSRec (conv_res c (sr_resource w) (rsp_res rs)) (sr_scope w) (sr_span w) in
   if sorted then
-    match sort_merge_scopes c (rsp_scopes rs) with
+    match sort_merge_scopes cmpS (rsp_scopes rs) with
     | Some l => fold_emit (write_scope_spans c sorted) w1 l
     | None => Panic
     end
   else fold_emit (write_scope_spans c sorted) w1 (rsp_scopes rs).
 
 (* OtlpToStefUnsorted{Sorted: sorted}.Convert starting from writer record w *)
-Definition traces_to_stef_from (c : cfg) (sorted : bool) (w : srecord) (b : tbatch)
-  : res (list srecord) :=
-  let rb := if sorted then sort_merge_res c b else Some b in
+Definition traces_to_stef_gen (cmpR : res_id -> res_id -> option comparison)
+           (cmpS : scope_id -> scope_id -> option comparison)
+           (c : cfg) (sorted : bool) (w : srecord) (b : tbatch) : res (list srecord) :=
+  let rb := if sorted then sort_merge_res cmpR b else Some b in
   match rb with
   | None => Panic
   | Some b' =>
-    match fold_emit (write_res_spans c sorted) w b' with
+    match fold_emit (write_res_spans cmpS c sorted) w b' with
     | Ok (recs, _) => Ok recs
     | Err => Err
     | Panic => Panic
     end
   end.
+Definition traces_to_stef_from (c : cfg) (sorted : bool) (w : srecord) (b : tbatch)
+  : res (list srecord) :=
+  traces_to_stef_gen (cmp_res_id c) (cmp_scope_id c) c sorted w b.
 Definition traces_to_stef (c : cfg) (sorted : bool) (b : tbatch) : res (list srecord) :=
   traces_to_stef_from c sorted srecord0 b.
